@@ -18,7 +18,7 @@ if [ ! -x "$OUT/drv" ]; then
     plain) FL="-O1 -g" ;;
     tsan) FL="-O1 -g -fsanitize=thread" ;;
   esac
-  gcc $FL $DEFS -I"$REPO/lib" -o "$OUT/drv.tmp" "$VERIF/harness/drv.c" $SRC -lpthread -Wl,--wrap=fopen,--wrap=fclose 2>"$OUT/build.log" || { cat "$OUT/build.log" >&2; rm -rf "$OUT"; exit 3; }
+  gcc $FL $DEFS -I"$REPO/lib" -o "$OUT/drv.tmp" "$VERIF/harness/drv.c" $SRC -lpthread -Wl,--wrap=fopen,--wrap=fclose,--wrap=fsync 2>"$OUT/build.log" || { cat "$OUT/build.log" >&2; rm -rf "$OUT"; exit 3; }
   mv "$OUT/drv.tmp" "$OUT/drv"
   # keep only the 6 most recent cached builds per variant
   ls -dt "$VERIF"/build/harness/$V-* 2>/dev/null | tail -n +7 | xargs -r rm -rf
